@@ -34,10 +34,10 @@ package mqtt
 //@ loop 1: invariant ref(p) == ref(old(p)) && len(p) <= len(old(p)) && off(p) + len(p) == off(old(p)) + len(old(p))
 //@ loop 1: invariant wire_len(conn) == old(wire_len(conn)) + (len(old(p)) - len(p))
 //@ loop 1: invariant forall(k, 0, old(wire_len(conn)), wire(conn)[k] == old(wire(conn))[k])
-//@ loop 1: invariant forall(k, 0, len(old(p)) - len(p), wire(conn)[old(wire_len(conn)) + k] == old(p)[k])
+//@ loop 1: invariant forall(i, old(wire_len(conn)), wire_len(conn), wire(conn)[i] == old(p)[i - old(wire_len(conn))])
 //@ ensures[C08] wire_len(conn) >= old(wire_len(conn)) && wire_len(conn) - old(wire_len(conn)) <= len(p)
 //@ ensures[C08] forall(k, 0, old(wire_len(conn)), wire(conn)[k] == old(wire(conn))[k])
-//@ ensures[C08] forall(k, 0, wire_len(conn) - old(wire_len(conn)), wire(conn)[old(wire_len(conn)) + k] == p[k])
+//@ ensures[C08] forall(i, old(wire_len(conn)), wire_len(conn), wire(conn)[i] == p[i - old(wire_len(conn))])
 //@ ensures[C08,C14] err == nil ==> wire_len(conn) == old(wire_len(conn)) + len(p)
 //@ ensures[C08] forall(k, 0, len(p), p[k] == old(p[k]))
 
@@ -93,12 +93,36 @@ package mqtt
 //@ requires closed(c.writeSem) ==> len(c.writeSem) == 0
 //@ modifies wire, wire_len, wclosed, wdl, chanstate(c.writeSem), chanstate(c.onlineSig)
 //@ ensures[C08,C14] err == nil ==> len(c.writeSem) == 1 && !closed(c.writeSem) && qat(c.writeSem, 0) != boxed(connSignal, 0) && qat(c.writeSem, 0) != boxed(connSignal, 1) && qat(c.writeSem, 0) != nil
-//@ ensures[C08,C14] err == nil ==> forall(w, w == qat(c.writeSem, 0) ==> wire_len(w) == old(wire_len(w)) + len(p) && forall(k, 0, len(p), wire(w)[old(wire_len(w)) + k] == p[k]) && forall(k, 0, old(wire_len(w)), wire(w)[k] == old(wire(w))[k]))
+//@ ensures[C08,C14] err == nil ==> forall(w, w == qat(c.writeSem, 0) ==> wire_len(w) == old(wire_len(w)) + len(p) && forall(i, old(wire_len(w)), wire_len(w), wire(w)[i] == p[i - old(wire_len(w))]) && forall(k, 0, old(wire_len(w)), wire(w)[k] == old(wire(w))[k]))
 //@ ensures[C08,C14] err == nil ==> forall(k, k != qat(c.writeSem, 0) ==> wire_len(k) == old(wire_len(k)))
 //@ ensures[C08,C10,C14] err != nil && err != ErrCanceled && err != ErrClosed && err != ErrDown ==> Is(err, ErrSubmit) && len(c.writeSem) == 1 && qat(c.writeSem, 0) == boxed(connSignal, 0)
 //@ ensures[C14] err == ErrCanceled || err == ErrClosed || err == ErrDown ==> forall(k, wire_len(k) == old(wire_len(k)))
 //@ ensures cap(c.writeSem) == 1 && (closed(c.writeSem) ==> len(c.writeSem) == 0)
 //@ ensures forall(k, 0, len(p), p[k] == old(p[k]))
+
+// writeBuffers: the flattened packet goes to the connection found in the write semaphore, or nowhere.
+//@ func mqtt.(*Client).writeBuffers -> err
+//@ requires c.writeSem != nil && cap(c.writeSem) == 1 && c.onlineSig != nil && !closed(c.onlineSig) && cap(c.onlineSig) == 1 && c.ctx != nil
+//@ requires closed(c.writeSem) ==> len(c.writeSem) == 0
+//@ modifies wire, wire_len, wclosed, wdl, chanstate(c.writeSem), chanstate(c.onlineSig), elems(p)
+//@ ensures[C08,C14] err == nil ==> len(c.writeSem) == 1 && !closed(c.writeSem) && qat(c.writeSem, 0) != boxed(connSignal, 0) && qat(c.writeSem, 0) != boxed(connSignal, 1) && qat(c.writeSem, 0) != nil
+//@ ensures[C08,C14] err == nil ==> forall(w, w == qat(c.writeSem, 0) ==> wire_len(w) == old(wire_len(w)) + old(flatlen(p)) && forall(i, old(wire_len(w)), wire_len(w), wire(w)[i] == old(flatat(p, i - old(wire_len(w))))) && forall(k, 0, old(wire_len(w)), wire(w)[k] == old(wire(w))[k]))
+//@ ensures[C08,C14] err == nil ==> forall(k, k != qat(c.writeSem, 0) ==> wire_len(k) == old(wire_len(k)))
+//@ ensures[C08,C10,C14] err != nil && err != ErrCanceled && err != ErrClosed && err != ErrDown ==> Is(err, ErrSubmit) && len(c.writeSem) == 1 && qat(c.writeSem, 0) == boxed(connSignal, 0)
+//@ ensures[C14] err == ErrCanceled || err == ErrClosed || err == ErrDown ==> forall(k, wire_len(k) == old(wire_len(k)))
+//@ ensures cap(c.writeSem) == 1 && (closed(c.writeSem) ==> len(c.writeSem) == 0)
+
+// writeBuffersNoWait: the flattened packet goes to the connection found in the write semaphore, or nowhere.
+//@ func mqtt.(*Client).writeBuffersNoWait -> err
+//@ requires c.writeSem != nil && cap(c.writeSem) == 1
+//@ requires closed(c.writeSem) ==> len(c.writeSem) == 0
+//@ modifies wire, wire_len, wclosed, wdl, chanstate(c.writeSem), elems(p)
+//@ ensures[C08,C14] err == nil ==> len(c.writeSem) == 1 && !closed(c.writeSem) && qat(c.writeSem, 0) != boxed(connSignal, 0) && qat(c.writeSem, 0) != boxed(connSignal, 1) && qat(c.writeSem, 0) != nil
+//@ ensures[C08,C14] err == nil ==> forall(w, w == qat(c.writeSem, 0) ==> wire_len(w) == old(wire_len(w)) + old(flatlen(p)) && forall(i, old(wire_len(w)), wire_len(w), wire(w)[i] == old(flatat(p, i - old(wire_len(w))))) && forall(k, 0, old(wire_len(w)), wire(w)[k] == old(wire(w))[k]))
+//@ ensures[C08,C14] err == nil ==> forall(k, k != qat(c.writeSem, 0) ==> wire_len(k) == old(wire_len(k)))
+//@ ensures[C08,C10,C14] err != nil && err != ErrClosed && err != ErrDown ==> Is(err, ErrSubmit) && len(c.writeSem) == 1 && qat(c.writeSem, 0) == boxed(connSignal, 0)
+//@ ensures[C14] err == ErrClosed || err == ErrDown ==> forall(k, wire_len(k) == old(wire_len(k)))
+//@ ensures cap(c.writeSem) == 1 && (closed(c.writeSem) ==> len(c.writeSem) == 0)
 
 //@ func mqtt.(*Client).onPUBACK -> err
 //@ requires c.persistence != nil && c.atLeastOnce.queue != nil
@@ -213,3 +237,15 @@ package mqtt
 //@ ensures[C11] forall(k, len(c.peek) >= 2 && k != c.peek[0]*256 + c.peek[1] ==> has(c.perPacketID, k) == old(has(c.perPacketID, k)) && at(c.perPacketID, k) == old(at(c.perPacketID, k)))
 //@ ensures[C11] err == nil ==> !has(c.perPacketID, c.peek[0]*256 + c.peek[1])
 //@ ensures[C11] err == nil && old(has(c.perPacketID, c.peek[0]*256 + c.peek[1])) && old(at(c.perPacketID, c.peek[0]*256 + c.peek[1])).done != nil ==> closed(old(at(c.perPacketID, c.peek[0]*256 + c.peek[1])).done)
+
+// writeBuffersTo: as writeTo, over the flattened buffers.
+//@ func mqtt.writeBuffersTo -> err
+//@ requires conn != nil
+//@ loop 1: invariant flatlen(p) >= 0 && flatlen(p) <= old(flatlen(p)) && wire_len(conn) == old(wire_len(conn)) + (old(flatlen(p)) - flatlen(p))
+//@ loop 1: invariant forall(k, 0, old(wire_len(conn)), wire(conn)[k] == old(wire(conn))[k])
+//@ loop 1: invariant forall(i, old(wire_len(conn)), wire_len(conn), wire(conn)[i] == old(flatat(p, i - old(wire_len(conn)))))
+//@ loop 1: invariant forall(d, d == old(flatlen(p)) - flatlen(p) ==> forall(k, 0, flatlen(p), flatat(p, k) == old(flatat(p, d + k))))
+//@ ensures[C08] wire_len(conn) >= old(wire_len(conn)) && wire_len(conn) - old(wire_len(conn)) <= old(flatlen(p))
+//@ ensures[C08] forall(k, 0, old(wire_len(conn)), wire(conn)[k] == old(wire(conn))[k])
+//@ ensures[C08] forall(i, old(wire_len(conn)), wire_len(conn), wire(conn)[i] == old(flatat(p, i - old(wire_len(conn)))))
+//@ ensures[C08,C14] err == nil ==> wire_len(conn) == old(wire_len(conn)) + old(flatlen(p))
